@@ -82,7 +82,7 @@ def standin(req):
         cfgs = []
         for tt, M, rd, ld, pd in itertools.product(types, Ms, [1, 2], [None, 2], ["TORUS", None, "SAME", "VALID", "explicit"]):
             even = any(m % 2 == 0 for m in M)
-            if (even and pd in ("TORUS", None, "SAME")) or (pd in ("TORUS", None) and ld is not None):
+            if even and pd in ("TORUS", None, "SAME"):
                 continue
             cfgs.append(dict(k=tt[0][0], p=tt[0][1], kf=tt[1][0], pf=tt[1][1], M=list(M), rdil=rd, ldil=ld, padding=pd))
         step = (4 if D == 2 else 19) if tier == "quick" else (2 if D == 2 else 5)
